@@ -5,7 +5,7 @@ import json, os
 from .. import core
 
 STAGE = {1: "parse_body vs. IR read through the public API", 2: "dfs_in_order callback log", 3: "dfs_pre_order_mut callback log",
-         4: "emit_locals declaration", 5: "emitted operator stream", 11: "parse_body model panics / out of fuel",
+         4: "emit_locals declaration", 6: "dfs_in_order callback log with overridden per-variant hooks", 7: "dfs_pre_order_mut callback log with overridden per-variant hooks", 5: "emitted operator stream", 11: "parse_body model panics / out of fuel",
          12: "dfs_in_order model fails", 13: "dfs_pre_order_mut model fails", 15: "emit_body model fails"}
 
 
